@@ -777,6 +777,8 @@ class Evaluator(object):
         body = self.bodies[key]
         if depth > self.max_depth:
             raise Unsupported("inlining depth exceeded at %s" % key)
+        if body["kind"] == "Closure" and len(args) != body["argc"] and args and isinstance(args[-1], Struct):
+            args = list(args[:-1]) + list(args[-1].fields)  # rust-call ABI: untuple
         if len(args) != body["argc"]:
             raise Unsupported("argument count mismatch calling %s: %d vs %d" % (key, len(args), body["argc"]))
         locs = []
